@@ -19,6 +19,15 @@ Theorem C04_confined : forall outdir fresh fresh' old old' fn lines,
 Proof. exact confined. Qed.
 Print Assumptions C04_confined.
 
+(* the reading a user relies on: with the code model fixed, editing, adding or deleting user code (or anything else) in
+   the OTHER files of the directory changes neither what is written for [fn] nor its LostCode file *)
+Theorem C04_other_files_irrelevant : forall outdir fresh old old' fn lines,
+  names_ok (keys fresh) -> slookup fn fresh = Some lines -> old fn = old' fn ->
+  slookup fn (fst (regen outdir old fresh)) = slookup fn (fst (regen outdir old' fresh))
+  /\ slookup (lost_name fn) (fst (regen outdir old fresh)) = slookup (lost_name fn) (fst (regen outdir old' fresh)).
+Proof. exact other_files_irrelevant. Qed.
+Print Assumptions C04_other_files_irrelevant.
+
 (* Within a file a block goes under the tag of its own cleaned name and nowhere else, exactly once, and any
    number of regenerations keeps it so: this is C01_tree_fixed_point / C02_evolution; restated here for the
    directory so that the "exactly once, in its own file, under its own tag" clause cannot be weakened
